@@ -56,6 +56,7 @@ structure SimSt where
   dead : Bool := false
   cbs : List (List String) := []
   refenum : Bool := false
+  refrelax : Bool := false
   mcRuns : Nat := 0
 
 def simHandler (st : SimSt) : SHandler PState Float :=
@@ -178,6 +179,7 @@ def simOp (st : SimSt) (ws : List String) : SimSt × List String :=
     (st, ["proj " ++ showProj topo crashed procs [] []])
   | "cb" :: rest => ({ st with cbs := st.cbs ++ [rest] }, [])
   | ["refenum"] => ({ st with refenum := true }, [])
+  | ["refrelax"] => ({ st with refenum := true, refrelax := true }, [])
   | "mc" :: rest =>
     -- `ModelChecker::new(&sys)` followed by one run; the simulator state is not affected
     match snapshot (fun (x : Float) => x.toBits.toNat) s with
@@ -185,7 +187,7 @@ def simOp (st : SimSt) (ws : List String) : SimSt × List String :=
     | .ok sys =>
       let procs := s.nodes.flatMap fun nd => nd.2.procs.map fun pe => (pe.1, nd.1, (st.recs.find? (·.1 == pe.1)).map (·.2) |>.getD false)
       let mst : McSt := { nodes := s.nodes.map (·.1), procs, canons := st.canons, rules := st.rules, sys := some sys, cbs := st.cbs,
-                          refenum := st.refenum, runs := st.mcRuns }
+                          refenum := st.refenum, refrelax := st.refrelax, runs := st.mcRuns }
       let (mst', lines) := doRun mst rest false
       ({ st with cbs := [], mcRuns := st.mcRuns + 1, dead := mst'.dead }, lines)
   | _ => (st, ["bad-op " ++ " ".intercalate ws])
